@@ -80,7 +80,7 @@ func (core *JApiCore) collectPathVariables(d *directive.Directive) *jerr.JApiErr
 		return d.KeywordError(jerr.BodyIsEmpty)
 	}
 
-	s, err := newPathVariablesSchema(d.BodyCoords.Read(), core.UserTypesData())
+	s, err := newPathVariablesSchema(d.BodyCoords.Read(), core.UserTypesData(), core.rules)
 	if err != nil {
 		return d.KeywordError(err.Error())
 	}
